@@ -11,7 +11,7 @@ import xml.etree.ElementTree as ET
 
 class View:
     def __init__(self):
-        self.items, self.wf, self.info = [], [], {}
+        self.items, self.wf, self.info, self.soft = [], [], {}, []
 
     def add(self, label, value):
         self.items.append((label, value))
@@ -501,7 +501,8 @@ def read_pe(data):
     v.info.update(overlay=overlay, after=after, cert=(cert_va, cert_sz), sections=nsec, checksum=u32(data, cks_off),
                   computed_checksum=pe_checksum(data, cks_off))
     if cert_sz and v.info["checksum"] != v.info["computed_checksum"]:
-        v.bad("pe: header checksum %#x, computed %#x" % (v.info["checksum"], v.info["computed_checksum"]))
+        # demanded of files relic writes (it promises to fix the checksum up), not of inputs
+        v.soft.append("pe: header checksum %#x, computed %#x" % (v.info["checksum"], v.info["computed_checksum"]))
     return v
 
 
@@ -991,7 +992,7 @@ def deb_external_checks(path, v):
         v.bad("ar t failed: %s" % p.stdout.decode(errors="replace")[:160])
     elif [x.rstrip("/") for x in p.stdout.decode().split()] != v.info.get("names"):
         v.bad("ar t lists %s, own reader %s" % (p.stdout.decode().split(), v.info.get("names")))
-    for args in (["-I"], ["-c"]):
+    for args in (["-f"], ["-c"]):
         p = subprocess.run(["dpkg-deb"] + args + [path], stdout=subprocess.PIPE, stderr=subprocess.STDOUT)
         if p.returncode != 0:
             v.bad("dpkg-deb %s failed: %s" % (args[0], p.stdout.decode(errors="replace")[-160:]))
